@@ -117,6 +117,10 @@ inductive Res (κ ρ α : Type) where
   | outOfFuel
   deriving Repr
 
+def Res.isErr {κ ρ α : Type} : Res κ ρ α → Bool
+  | .err _ => true
+  | _ => false
+
 /-- a definition of some file: (resolved path of the file, index in its definition list) -/
 abbrev DefId (κ : Type) := κ × Nat
 
